@@ -45,8 +45,19 @@ def native_check(seed=0, trees=60, depth=6):
             return a - c, (lambda st, s: fa(st, s) - float(c))
         return c - a, (lambda st, s: float(c) - fa(st, s))
     n = 0
+    from qucumber.observables.observable import ObservableBase as _OB
     for t in range(trees):
-        o, f = gen(rnd.randint(1, depth))
+        try:
+            o, f = gen(rnd.randint(1, depth))
+        except Exception as e:
+            # building a linear combination of observables and real scalars must not raise
+            n += 1
+            fails.append(("building a random linear combination raised", repr(e)[:200]))
+            continue
+        if not isinstance(o, _OB):
+            n += 1
+            fails.append(("a linear combination of observables and scalars is not an observable", type(o).__name__ + ": " + repr(o)[:120]))
+            continue
         st = states[t % 3]
         samples = torch.tensor(rng.integers(0, 2, size=(5, 3)), dtype=torch.double)
         keep = samples.clone()
